@@ -164,7 +164,7 @@ def model_check(sysd, prop, tier, workdir, workers, timeout):
 def generate_schedules(sysd, gen, seed, workdir, timeout=600):
     """Behaviours of the specification as schedules (TLC -simulate, one JSON line per behaviour)."""
     consts = open(os.path.join(ROOT, sysd["dir"], gen["consts"])).read() + kf_consts(sysd, False)
-    cfg = os.path.join(workdir, "gen-%s.cfg" % gen["consts"].replace(".consts", ""))
+    cfg = os.path.join(workdir, "gen-%s%s.cfg" % (gen["consts"].replace(".consts", ""), "-" + gen["view"] if gen.get("view") else ""))
     bfs = gen.get("mode") == "bfs"
     module = os.path.join(ROOT, sysd["dir"], gen["module"] + ".tla")
     if bfs:
@@ -192,7 +192,7 @@ def generate_schedules(sysd, gen, seed, workdir, timeout=600):
         with open(os.path.join(workdir, "gen.out"), "w") as f:
             f.write(out)
         raise ToolError("schedule generation produced nothing (see %s/gen.out)" % workdir)
-    path = os.path.join(workdir, "sched-%s.ndjson" % gen["consts"].replace(".consts", ""))
+    path = os.path.join(workdir, "sched-%s%s.ndjson" % (gen["consts"].replace(".consts", ""), "-" + gen["view"] if gen.get("view") else ""))
     with open(path, "w") as f:
         for s in scheds:
             f.write(json.dumps(s) + "\n")
